@@ -33,7 +33,7 @@ def main():
     done = set()
     if os.path.exists(OUT):
         done = {json.loads(l)["seed"] for l in open(OUT) if l.strip()}
-    seeds = sorted(d for d in os.listdir(os.path.join(V, "seeded")) if re.match(r"C\d\d-\d+$", d))
+    seeds = sys.argv[1:] or sorted(d for d in os.listdir(os.path.join(V, "seeded")) if re.match(r"C\d\d-\d+$", d))
     for sid in seeds:
         if sid in done:
             continue
